@@ -360,12 +360,13 @@ pub fn scenario(seed: u64, stepping: Option<Stepping>, long: bool) -> Made {
     let mut rng = Rng::new(seed);
     let mut w = World::new(seed);
     let pick = rng.below(5);
-    w.stepping = stepping.unwrap_or(match pick {
+    let s = stepping.unwrap_or(match pick {
         // eager stepping over hours costs hundreds of thousands of idle iterations
         0 if !long => Stepping::Eager(10),
         1 if !long => Stepping::Eager(50),
         _ => Stepping::Lazy,
     });
+    w.set_stepping(s);
     let ifs = if rng.chance(1, 3) { scen::single_dual() } else { scen::single_v4() };
     let h = w.add_host(ifs);
     let t0 = w.now();
